@@ -352,6 +352,26 @@ func seedCases() []Case {
 			c.Timeout = &TimeoutSpec{View: 9, Sync: *sync, ViewSig: SigSpec{Signers: []int{1}}, MsgSig: &SigSpec{Signers: []int{1}}}
 		})
 		add("timeout", func(c *Case) { c.Timeout = &TimeoutSpec{View: 9, Sync: SyncSpec{QC: qc(1)}, ViewSig: SigSpec{Signers: []int{1}}} })
+		// boundary values, so that the neighbourhood of wide varints / far timestamps is in the corpus from the start
+		const maxU64 = ^uint64(0)
+		xqc := &QCSpec{Target: 3, HashSeed: maxU64, OwnView: true, View: maxU64, Sig: SigSpec{Signers: []int{3, 1}}}
+		xblk := &BlockSpec{ParentMode: 3, ParentSeed: 5, QC: *xqc, View: maxU64 - 1, Proposer: ^uint32(0), TS: TSSpec{Mode: 1, Sec: maxSec, Nsec: 999_999_999, Zone: 7},
+			Batch: BatchSpec{Cmds: []CmdSpec{{Client: ^uint32(0), Seq: maxU64, DataLen: 300, Fill: 0xff}}}}
+		xagg := &AggSpec{View: 1 << 63, Sig: SigSpec{Signers: []int{1, 0, 2}}, Entries: []AggEntry{{RawID: true, ID: ^uint32(0), QC: *xqc}, {RawID: true, ID: 0, QC: *qc(0)}}}
+		add("block", func(c *Case) { c.Block = xblk })
+		add("block", func(c *Case) {
+			b := *xblk
+			b.TS, b.Batch = TSSpec{Sec: minSec}, BatchSpec{Nil: true}
+			c.Block = &b
+		})
+		add("proposal", func(c *Case) { c.Block, c.AggQC = xblk, xagg })
+		add("qc", func(c *Case) { c.QC = xqc })
+		add("tc", func(c *Case) { c.TC = &TCSpec{View: maxU64, Sig: SigSpec{Signers: []int{2}}} })
+		add("tc", func(c *Case) { c.TC = &TCSpec{View: 0, NilSig: true} })
+		add("aggqc", func(c *Case) { c.AggQC = xagg })
+		add("timeout", func(c *Case) {
+			c.Timeout = &TimeoutSpec{View: 1<<32 + 1, Sync: SyncSpec{QC: xqc, Agg: xagg}, ViewSig: SigSpec{Signers: []int{1}}, MsgSig: &SigSpec{Signers: []int{1, 3}}}
+		})
 	}
 	return out
 }
